@@ -117,6 +117,8 @@ def gen_tree(rng, schema, density=0.7, maxinst=5):
             return "<%s%s>%s</%s>" % (tag, ns, body, tag)
         if n["kind"] == "l":
             k = rng.choice([0, 1, 2, 3, 4, maxinst])
+            # the last top-level node must have a child, or every reverse-order node-set crashes get_node_pos() (F59, which has its own witness)
+            if not path and k == 0: k = 1
             seen, out = set(), ""
             for _ in range(k):
                 kv = tuple(gen_value(rng, kid["type"], key=True) for kid in n["kids"] if kid["name"] in n["keys"] and kid["mod"] == n["mod"])
@@ -141,6 +143,8 @@ def gen_tree(rng, schema, density=0.7, maxinst=5):
 # start = 'R' | 'C' | ('E', expr);  step = (axis, test, [preds], dslash);  test = ('n', pfx|None, name) | ('a',) | ('m', pfx) | ('o',) | ('t',)
 AXES = ["child", "descendant", "parent", "ancestor", "following-sibling", "preceding-sibling", "following", "preceding", "attribute", "self",
         "descendant-or-self", "ancestor-or-self"]
+# the attribute axis is kept out of the generated streams: the data carries no annotations, and libyang's own bookkeeping metadata is visible there (F62)
+AXES_GEN = [a for a in AXES if a != "attribute"]
 PREC = {"or": 1, "and": 2, "eq": 3, "ne": 3, "lt": 4, "le": 4, "gt": 4, "ge": 4, "add": 5, "sub": 5, "mul": 6, "div": 6, "mod": 6, "union": 8}
 OPTXT = {"or": "or", "and": "and", "eq": "=", "ne": "!=", "lt": "<", "le": "<=", "gt": ">", "ge": ">=", "add": "+", "sub": "-", "mul": "*", "div": "div",
          "mod": "mod", "union": "|"}
@@ -333,7 +337,7 @@ class Gen:
         x = r.random()
         if axes: axis = r.choice(axes)
         elif x < 0.62: axis = "child"
-        else: axis = r.choice(AXES)
+        else: axis = r.choice(AXES_GEN)
         ds = allow_ds and axis == "child" and r.random() < 0.08
         if axis == "child":
             test, ncur = self.name_test(None if ds else cur, axis)
@@ -420,13 +424,20 @@ class Gen:
                                                                           "following-sibling", "preceding-sibling"])
                 steps.append(st)
         n = r.choice([0, 1, 1, 2, 2, 3, 4]) if start != "R" else r.choice([0, 1, 2, 2, 3, 3, 4])
+        # `anti`: no node of the current set is an ancestor of another one.  libyang's `//name` returns duplicates and its child step
+        # returns nodes out of document order on sets that are not antichains (F57), so `//` is only generated while `anti` holds, and
+        # a wide `//*` must not be followed by a child/self step.
+        anti = start in ("R", "C") or (isinstance(start, tuple) and start[1] == ("fn", "current", []))
+        for st0 in steps:
+            anti = False
         for i in range(n):
             prev = steps[-1] if steps else None
-            # after `//*` / `//m:*` / `//node()`-like wide steps the next step must not be child/self (document order, F57)
             wide = prev is not None and prev[3] and prev[1][0] in ("a", "m", "o")
-            st, c = self.step(c, depth, allow_ds=(start != "C" or i > 0) and not wide, first=(i == 0),
+            st, c = self.step(c, depth, allow_ds=anti and (start != "C" or i > 0) and not wide, first=(i == 0),
                               axes=(["descendant", "parent", "ancestor", "following-sibling", "preceding-sibling"] if wide else None))
             steps.append(st)
+            if st[0] not in ("child", "self", "following-sibling", "preceding-sibling") or (st[3] and st[1][0] in ("a", "m", "o")):
+                anti = False
         if start == "C" and not steps and r.random() < 0.5:
             st, c = self.step(cur, depth, allow_ds=False)
             steps.append(st)
@@ -563,6 +574,8 @@ WITNESSES = [
     ("F58", 0, absp(C_, L1, st(("n", None, "v")))),
     ("F58", 0, absp(C_, st(STAR, preds=[bop("or", relp(st("l1", "self")), relp(st("l2", "self")))]), st(("n", None, "v")))),
     ("F60", 0, fn("count", absp(st(TEXT, ds=True)))), ("F60", 0, fn("count", absp(st(NODE, ds=True)))),
+    ("F62", 0, fn("count", absp(C_, st("l1", preds=[num(1)]), st(STAR, "attribute")))),
+    ("F62", 0, fn("name", absp(C_, st("ll", preds=[num(1)]), st(STAR, "attribute")))),
 ]
 # undefined behaviour / crashes: sent to the implementation only, one request per process
 CRASH_WITNESSES = [
